@@ -68,8 +68,9 @@ theorem missing_forgets (m : M) (b : List Bool) (hb : m.1.bf = some b) :
   unfold hadForget
   simp [hb]
 
-/-- **persisted_below_bitfield.** Every event except the verify command (external file changes included),
-in every state without a pending verify: the resume bitfield stays bitwise below the in-memory bitfield —
+/-- **persisted_below_bitfield.** Every event except the verify command in either of its two forms
+(`Op.isVerify`: `Op.verify`, and `Op.verifyHeld`, the same command given while the harness leaves the storage
+gates alone) — external file changes and both stop commands included —, in every state without a pending verify: the resume bitfield stays bitwise below the in-memory bitfield —
 it is written from it (stop, completion, verification, periodic writer) and dropped with it
 (`forgetBitfield`, the dropped allocation of `stop`). -/
 theorem persisted_below_bitfield (s : St) (p : Parked) (kn : Nat → Bool) (op : Op) (hop : op.isVerify = false)
@@ -181,6 +182,12 @@ private def evsB : List Ev := [
   ⟨.gate .failOpen false, kn [1], [], []⟩,
   ⟨.gate .read true, kn [1], [], []⟩,
   ⟨.waitstop, kn [1], [], []⟩]
+
+/-- `Op.verifyHeld` has to be excluded like `Op.verify` (it is the same handler): from the freshly added
+torrent, which satisfies `PBehind`, with the open gate held it leaves the verification pending. -/
+example : PBehind { s1 with gateOpen := true } ∧ Op.verifyHeld.isVerify = true ∧ Op.stopHeld.isVerify = false ∧
+    (step { s1 with gateOpen := true } none (fun _ => false) .verifyHeld).1.st.doVerify = true :=
+  ⟨⟨by decide, fun i hi => by cases hi⟩, by decide, by decide, by decide⟩
 
 theorem stale_record_after_verify_while_stopping :
     (drun (s2, none) evsA).1.status = .stopped ∧ (drun (s2, none) evsA).1.persisted = some [true, true] ∧
